@@ -1559,6 +1559,12 @@ func protocolOK(events []string, names []string, nstrat int) string {
 			return fmt.Sprintf("asset %s state %d writes %d", n, state[n], writes[n])
 		}
 	}
+	// every asset that was begun (also one the repository does not know) gets its results and its end
+	for n, st := range state {
+		if st != 2 || writes[n] != nstrat {
+			return fmt.Sprintf("asset %s begun but state %d writes %d", n, st, writes[n])
+		}
+	}
 	return ""
 }
 
